@@ -241,7 +241,32 @@ func run(tb ev.TB, c xCase) (labels []string, nontrivial bool) {
 				}
 			}(g)
 		}
-		wg.Wait()
+		// The Conn has a deadline, so every call returns (with its answer or an error) soon after it; a call that is still
+		// not back long after observed neither, e.g. readers spinning over a response that no call claims.
+		done := make(chan struct{})
+		go func() { wg.Wait(); close(done) }()
+		limit := 25 * time.Second
+		if c.DeadlineMs > 0 {
+			limit += time.Duration(c.DeadlineMs) * time.Millisecond
+		}
+		select {
+		case <-done:
+		case <-time.After(limit):
+			mu.Lock()
+			returned := len(outs)
+			mu.Unlock()
+			conn.Close()
+			select {
+			case <-done:
+			case <-time.After(10 * time.Second):
+			}
+			total := 0
+			for _, g := range c.Goroutines {
+				total += len(g)
+			}
+			ev.Fail(tb, "xtalk", "c06/conn/calls-never-returned", c, "%d of %d calls on the Conn had returned %v after the start (deadline %d ms): the others observed neither their response nor an error", returned, total, limit, c.DeadlineMs)
+			return
+		}
 	} else {
 		tr := &kafka.Transport{Dial: nw.Dial, MetadataTTL: 50 * time.Millisecond, IdleTimeout: time.Duration(c.IdleMs) * time.Millisecond, DialTimeout: 2 * time.Second, ClientID: "c06"}
 		defer tr.CloseIdleConnections()
@@ -482,5 +507,29 @@ func TestTransportCrossTalk(t *testing.T) {
 		labels, nt := run(t, c)
 		ev.Case(fp(c, labels), nt, labels...)
 		ev.Sample(c)
+	})
+}
+
+// TestConnHammer: many goroutines issue cheap requests on one Conn as fast as they can, without faults: windows of a few
+// instructions (e.g. two requests obtaining the same correlation id) are only hit by volume and true parallelism.
+func TestConnHammer(t *testing.T) {
+	rapid.Check(t, func(t *rapid.T) {
+		// the deadline bounds the case: a response nobody waits for would otherwise keep the readers spinning forever
+		c := xCase{Mode: "conn", Brokers: 1, Sched: map[string]int{}, DeadlineMs: 6000}
+		ng := rapid.IntRange(6, 16).Draw(t, "goroutines")
+		n := rapid.SampledFrom([]int{150, 400, 800}).Draw(t, "calls")
+		kinds := []string{"offset", "partitions", "partitions", "coordinator", "committed"}
+		tag := 1000
+		for g := 0; g < ng; g++ {
+			var calls []call
+			for i := 0; i < n; i++ {
+				tag++
+				calls = append(calls, call{Kind: kinds[rapid.IntRange(0, len(kinds)-1).Draw(t, "kind")], Tag: tag})
+			}
+			c.Goroutines = append(c.Goroutines, calls)
+		}
+		ev.InFlight("xtalk", c)
+		labels, _ := run(t, c)
+		ev.Case(fmt.Sprintf("hammer g%d n%d %v", ng, n, labels), true, append(labels, "hammer")...)
 	})
 }
